@@ -149,6 +149,58 @@ def build_stream_validator(fns):
     return [sc]
 
 
+def build_seekable_guard(fns):
+    """CasObject::validate_cas_object (seekable validator): `unpacked_chunk_offsets` is only looked at behind the true edge of
+    the boundary-section version test.  For footers converted from V0 (from_v0) the vector is empty and the version is 0, so an
+    unguarded `get(idx).unwrap()` panics on a valid legacy xorb."""
+    from mirsym import modeb
+    from props.c15 import struct_fields
+    f = mir.find_fn(fns, r"cas_object_format::<impl [^>]*>::validate_cas_object$")
+    fld = struct_fields(os.path.join(REPO, "cas_object/src/cas_object_format.rs"), "CasObjectInfoV1")
+    g = modeb.CFG(f)
+    iu, iv = fld["unpacked_chunk_offsets"], fld["boundaries_version"]
+    acc = [b for b in g.nodes if any(re.search(r"CasObjectInfoV1\)\.%d: std::vec::Vec<u32>\)" % iu, st) for st in f.blocks[b][0])]
+    if not acc:
+        raise LookupError("seekable validator no longer reads unpacked_chunk_offsets")
+    true_edges, guards = [], []
+    for b in g.nodes:
+        t = g.term[b]
+        if t["kind"] != "switch":
+            continue
+        ver = set()
+        for st in f.blocks[b][0]:
+            m = re.match(r"(_\d+) = copy \(.*CasObjectInfoV1\)\.%d: u8\)$" % iv, st)
+            if m:
+                ver.add(m.group(1))
+            m = re.match(r"(_\d+) = (Eq|Ne)\((?:move|copy) (_\d+), const (?:.*CAS_OBJECT_FORMAT_BOUNDARIES_VERSION|1_u8)\)$", st)
+            if m and m.group(3) in ver and re.search(r"(move|copy) %s$" % m.group(1), t["operand"]):
+                guards.append(b)
+                zero = [v for k, v in t["targets"] if k == 0]
+                if m.group(2) == "Eq" and t["otherwise"]:
+                    true_edges.append((b, t["otherwise"]))
+                elif m.group(2) == "Ne":
+                    true_edges += [(b, z) for z in zero]
+    sc = smt.Script("c08_seekable_unpacked_offsets_guarded")
+    modeb.no_path_query(g, sc, "unpacked_chunk_offsets is read only when the boundary section has the current version (V0-converted footers carry none)",
+                        [g.entry], acc, [], avoid_edges=true_edges)
+    modeb.no_path_query(g, sc, "witness: the unpacked-offset comparison is reachable", [g.entry], acc, [], expect="sat", kind="witness")
+    return [sc]
+
+
+def replay_v0(model, fnd, prop):
+    env = base_env()
+    env["CARGO_TARGET_DIR"] = os.path.join(BUILD, "replay_target")
+    rc, out = sh(["cargo", "test", "--offline", "--test", "c08_v0_footer_validators"], cwd=os.path.join(VERIF, "replay"), env=env, timeout=2400,
+                 log=os.path.join(LOGS, "replay_c08_v0.log"))
+    path = os.path.join(VERIF, "replay", "tests", "c08_v0_footer_validators.rs")
+    if "test result: FAILED" in out:
+        m = re.search(r"C08 violated: [^\n]*", out)
+        return True, path, m.group(0)[:240] if m else "native replay fails"
+    if re.search(r"test result: ok. [1-9]\d* passed", out):
+        return False, path, "native replay passes: V0-footer xorbs are accepted / rejected by both validators without a panic"
+    return None, path, "native replay inconclusive (rc=%s)" % rc
+
+
 def replay(model, fnd, prop):
     env = base_env()
     env["CARGO_TARGET_DIR"] = os.path.join(BUILD, "replay_target")
@@ -181,6 +233,8 @@ SMT = [Q("c08_footer_accept", "a footer is accepted only with current versions",
          functions=["cas_object::cas_object_format::CasObjectInfoV1::deserialize (accepting paths)"], bounds="loops entered at most once", replay=replay_accept, timeout=600),
        Q("c08_stream_validator", "stream validator accepts only after comparing the recomputed root", "cas_object", build_stream_validator,
          functions=["cas_object::validate_xorb_stream::_validate_cas_object_from_async_read"], bounds="all CFG paths", replay=replay_accept, solvers=("z3", "cvc5-bv")),
+       Q("c08_seekable_v0_guard", "seekable validator reads unpacked offsets only under the version guard (Mode B)", "cas_object", build_seekable_guard,
+         functions=["cas_object::cas_object_format::CasObject::validate_cas_object"], bounds="all CFG paths", replay=replay_v0, solvers=("z3", "cvc5-bv")),
        Q("c08_footer_parsers", "footer parsers: no overflow panic, bounded allocation, on arbitrary field values", "cas_object", build_parsers,
          functions=["cas_object::cas_object_format::CasObjectInfoV1::{deserialize, deserialize_only_boundaries_section}", "CasObjectInfoV0::deserialize_v0",
                     "CasObject::get_info_length", "prealloc_num_chunks"], bounds="loops entered at most once", replay=replay, timeout=600)]
